@@ -9,11 +9,12 @@ sys.path.insert(0, os.path.join(os.path.dirname(os.path.abspath(__file__)), ".."
 from vlib import *
 
 OVERLAY = {"p2p/net/upgrader/zz_c04_verif_test.go": "harness/overlay/c04/c04_verif_test.go",
+           "p2p/net/upgrader/zz_c04_accept_verif_test.go": "harness/overlay/c04/c04_accept_verif_test.go",
            "zz_c04_streams_verif_test.go": "harness/overlay/c04/c04_streams_verif_test.go",
            "p2p/net/swarm/zz_c04_close_verif_test.go": "harness/overlay/swarm/c04_close_verif_test.go",
            "p2p/transport/tcpreuse/zz_c04_verif_test.go": "harness/overlay/c04/c04_tcpreuse_verif_test.go",
            "p2p/transport/quic/zz_c04_verif_test.go": "harness/overlay/c04/c04_quic_verif_test.go"}
-SUITES = [("p2p/net/upgrader", "TestVerifC04$"), (".", "TestVerifC04Streams$"), ("p2p/net/swarm", "TestVerifC04Close$"),
+SUITES = [("p2p/net/upgrader", "TestVerifC04$"), ("p2p/net/upgrader", "TestVerifC04Accept$"), (".", "TestVerifC04Streams$"), ("p2p/net/swarm", "TestVerifC04Close$"),
           ("p2p/transport/tcpreuse", "TestVerifC04Tcpreuse$"), ("p2p/transport/quic", "TestVerifC04Quic$")]
 
 SPECS = [
@@ -23,6 +24,7 @@ SPECS = [
     "gated_accept=p2p/net/upgrader/listener.go:gatedMaListener.Accept",
     "listener_accept=p2p/net/upgrader/listener.go:listener.Accept",
     "listener_loop=p2p/net/upgrader/listener.go:listener.handleIncoming",
+    "listener_close=p2p/net/upgrader/listener.go:listener.Close",
     "host_streamhandler=p2p/host/basic/basic_host.go:BasicHost.newStreamHandler",
     "tcp_dial=p2p/transport/tcp/tcp.go:TcpTransport.DialWithUpdates",
     "tcp_dial_scope=p2p/transport/tcp/tcp.go:TcpTransport.dialWithScope",
@@ -168,9 +170,32 @@ QUICSC = {0: "none (connection established, closed by the harness)", 1: "server 
           6: "hole punch given up exactly while the peer's connection is accepted and handed to the attempt (raw_closed 0 = the connection came out of neither Dial nor Accept)"}
 
 
+ACCEV = {1: "raw listener Accept returned raw conn", 2: "the code closed raw conn", 3: "harness calls listener.Accept", 4: "listener.Accept returned conn",
+         5: "listener.Accept returned the listener's error", 6: "harness calls listener.Close", 7: "listener.Close returned"}
+
+
+def describe_accept(t):
+    """kind 8: accept pipeline against listener.Close (wire format in coq/c04/Accept.v)"""
+    try:
+        n = t[8]
+        conns = [{"conn": i, "handed over by Accept": t[9 + 2 * i], "raw conn closed at the end": t[10 + 2 * i]} for i in range(n)]
+        j = 9 + 2 * n
+        nev = t[j]
+        evs = ["%s%s" % (ACCEV.get(t[j + 1 + 2 * k], t[j + 1 + 2 * k]), (" %d" % t[j + 2 + 2 * k]) if t[j + 1 + 2 * k] in (1, 2, 4) else "") for k in range(nev)]
+        return {"attempt": "upgrader listener: in-flight accepts against listener.Close", "AcceptQueueLength": t[1], "raw listener closed": t[2],
+                "usage_delta(conns,fd,mem,streams)": t[3:7], "goroutines_left": t[7], "conns": conns, "events in order": evs}
+    except Exception:
+        return {"raw": t}
+
+
 def describe(t):
+    if t and t[0] == 9:
+        return {"attempt": "concurrent callers of Swarm.Close (closeOnce / refs; wire format in coq/c04/CloseOnce.v)", "callers whose Close returned": t[1] if len(t) > 1 else None,
+                "per caller: every registered listener and connection was closed when its Close returned": t[2:]}
     if t and t[0] == 5:
         return describe_close(t)
+    if t and t[0] == 8:
+        return describe_accept(t)
     if len(t) == 12 and t[0] == 6:
         return {"attempt": KIND[6], "scenario": TCPREUSE.get(t[1], t[1]), "reported_error": t[4], "raw_conn_closed": t[5],
                 "usage_delta(conns,fd,mem,streams)": t[7:11], "goroutines_left": t[11], "config": "", "special": "", "fault": TCPREUSE.get(t[1], t[1]), "at_io_index": 0}
@@ -189,18 +214,29 @@ def describe(t):
 
 def nontrivial(line):
     t = line.split()
-    if t and t[0] == b"5":
-        return True     # every close-race case races a Close with adds
+    if t and t[0] in (b"5", b"8"):
+        return True     # every close-race case races a Close with adds / in-flight accepts
+    if t and t[0] == b"9":
+        return len(t) > 3   # at least two concurrent callers of Close
     return len(t) == 12 and t[2] not in (b"0", b"100")   # a fault was injected
 
 
 def key(tag, toks, d):
+    if toks and toks[0] == 9:
+        return "C04:%s:close-once:%s:%s" % (tag, " ".join(map(str, toks[1:20])), d)
+    if toks and toks[0] == 8:
+        return "C04:%s:accept-close:%s:%s" % (tag, " ".join(map(str, toks[1:80])), d)
     if toks and toks[0] == 5:
         return "C04:%s:close-race:%s:%s" % (tag, " ".join(map(str, toks[1:60])), d)
     return "C04:%s:kind=%d:cfg=%d:fault=%d@%d:%s" % (tag, toks[0], toks[1], toks[2], toks[3], d[4:])
 
 
 def what(tag, toks, d):
+    if toks and toks[0] == 9:
+        return "Swarm.Close returned to a caller while a registered listener or connection was still open (per caller 1 = clean: %s)" % (toks[2:],)
+    if toks and toks[0] == 8:
+        return ("upgrader listener Close racing with in-flight accepts: something was left behind or the event order is not one the model allows "
+                "(diag %s; for 902: all raw conns closed, usage back, no goroutine left, raw listener closed)" % (d,))
     if toks and toks[0] == 5:
         return "Swarm.Close racing with addConn/NewStream: something was left open (diag %s: conns closed, streams released, conns left, usage conns, usage streams)" % (d,)
     dd = describe(toks)
@@ -211,14 +247,15 @@ def what(tag, toks, d):
 
 if __name__ == "__main__":
     ctx = Ctx("C04")
-    ctx.trusted.append("tools/genpaths (go/ast translator, ~450 lines): emits Unknown for statement forms it does not know; "
+    ctx.trusted.append("tools/genpaths (go/ast translator, ~720 lines; bounded loops unrolled 0, 1 and 2 times): emits Unknown for statement forms it does not know; "
                        "the effect tables in coq/c04/Model.v (which call closes/releases what) are hand-written and strict: "
                        "a call of a listed function that is in no table makes the path unbalanced")
     ctx.assumptions = [
         "closing any wrapper of the raw connection (pnet, secure, tracing conn) closes the raw connection; transportConn.Close closes the muxed conn and Dones the scope; Stream.Reset on a registered stream releases its scope (read from upgrader/conn.go, swarm_stream.go; exercised by the fault harness)",
         "goroutine termination and OS descriptors are observed by the fault harness, not proved; the fault harness drives TCP (noise/tls, psk) and real hosts; the QUIC, WebSocket, WebTransport, WebRTC, tcpreuse and relay-client paths are covered by the path theorem only",
         "in WebRTC setupConnection/dial the deferred `if err != nil { PeerConnection.Close() }` is interpreted with err != nil <=> the function returns an error (named result) and PeerConnection != nil <=> newWebRTCConnection succeeded",
-        "swarm Close: the registry protocol of Swarm.conns / Conn.streams (add under the lock refuses when the map is nil; close takes the map and releases every item) is modelled as an LTS in coq/c04/Close.v, one step per critical section / release; the mutexes themselves, closeOnce and the refs WaitGroup are not modelled (Close returning only after refs is zero is observed by the harness); listeners follow the same protocol and are observed by the host-Close cases (kind 4), not modelled",
+        "swarm Close: the registry protocol of Swarm.conns / Conn.streams (add under the lock refuses when the map is nil; close takes the map and releases every item) is modelled as an LTS in coq/c04/Close.v, one step per critical section / release; listeners follow the same protocol (modelled, and raced in the close-race harness with a fake transport); closeOnce and the refs WaitGroup are modelled separately (coq/c04/CloseOnce.v: who may take a count and when; any returned caller implies close() finished and all counts given back) and tied by the kind-9 cases; the mutexes themselves are assumed to make each listed critical section atomic",
+        "upgrader listener (coq/c04/Accept.v): one caller of Close and one caller of Accept at a time (what the swarm does); the WaitGroup and threshold counters are computed from the connections' states (Add/Done and Acquire/Release bracket exactly those states); Upgrade closing the raw conn on every error path is the path theorem's statement; a remote that dies while its connection waits in the queue is covered by the fault harness (kind 2, fault 201), not by the kind-8 traces",
     ]
     spec = dict(
         consts=consts,
@@ -238,7 +275,14 @@ if __name__ == "__main__":
              "after everything returned: what each addConn/addStream answered, whether every fake conn / muxed stream was closed, Swarm.Conns(), system usage. "
              "The model (Close.v) is run on the schedule these answers determine and must end in the same per-item statuses. "
              "tcpreuse (kind 6): raw TCP clients against the real shared listener + gated listener + resource manager with only multistream registered (HTTP / TLS / unknown "
-             "first bytes, close before 3 bytes, stall until the identify timeout, multistream). QUIC (kind 7): real transports over loopback with real resource managers, "
+             "first bytes, close before 3 bytes, stall until the identify timeout, multistream). Accept pipeline (kind 8): the real upgrader listener (AcceptQueueLength 1-2) "
+             "with the real resource manager gets 1-3 raw TCP connections whose remote side never starts the handshake / completes it / sends garbage, listener.Accept is called "
+             "or not, the accept timeout is an hour or 40 ms, and listener.Close is called at a forced stage (raw conn accepted and upgrading; upgraded conns waiting to be handed over "
+             "with one more parked at the threshold; after a hand-over with another Accept blocked; after the accept timeout) or at a seeded point of a shuffled script; the externally "
+             "visible events are logged in order and the model (Accept.v) must accept the sequence (internal steps closed under tau) and end with Close returned and the same "
+             "per-connection observations; the monitor requires every raw conn closed, usage back, no goroutine left, the raw listener closed. Concurrent Close (kind 9): in every "
+             "close-race case 1-3 goroutines call Swarm.Close concurrently (fake listeners whose Close takes up to 3 ms); each notes, the moment its call returns, which fake connections and "
+             "listeners are still open; one that turns out to have been registered (its add returned nil) makes the caller's entry 0. QUIC (kind 7): real transports over loopback with real resource managers, "
              "a gater rejecting at InterceptAccept / InterceptSecured on either side, the server's resource manager refusing, a dial for the wrong peer.",
         describe=describe, key=key, what=what, crosscheck=60, search_seeds=[],
     )
